@@ -34,7 +34,7 @@ static const bool KNOWN_REUSE_TWICE_HANG_PRESENT = true;
 // (4) clipper.offset.cpp `int d = (int)std::ceil(abs_delta)` (single-point path, join type other than Round): for
 //     |delta| >= 2^31 the conversion is undefined (and yields a square of the wrong size): the generic stream keeps
 //     |delta| < 2^30 whenever a path collapses to a single point.
-static const bool KNOWN_OFFSET_POINT_INT_CAST_PRESENT = true;
+static const bool KNOWN_OFFSET_POINT_INT_CAST_PRESENT = false;  // repaired by fix: 610f4f0
 // (5) double entry points that scale without a range check: the RectD of RectClip/RectClipLines (ScaleRect), and in the
 //     export layer InflatePathsD / InflatePathD / RectClipD / RectClipLinesD (ConvertCPathsDToPaths64, ScaleRect): a
 //     coordinate times 10^precision beyond int64 is converted with undefined behaviour instead of being rejected (the
@@ -42,7 +42,7 @@ static const bool KNOWN_OFFSET_POINT_INT_CAST_PRESENT = true;
 static const bool KNOWN_UNCHECKED_D_SCALING_PRESENT = true;
 // (6) RamerDouglasPeucker: RDP() takes the path *by value*, one copy per recursive call: quadratic time and memory
 //     traffic (20000 points at epsilon 0 take > 10 s under ASan).  The large-input stream keeps RDP inputs small.
-static const bool KNOWN_RDP_COPY_PER_CALL_PRESENT = true;
+static const bool KNOWN_RDP_COPY_PER_CALL_PRESENT = false;  // repaired by fix: edf1133
 
 // (8) after an injected std::bad_alloc the engine leaks memory (no invalid access): AddPaths_ owns its `new Vertex[]` only
 //     when it returns (clipper.engine.cpp ~621/713), InsertLocalMinimaIntoAEL holds `new Active` in a local until it is
@@ -1125,7 +1125,8 @@ static std::vector<Case> big_cases(Rng& g, int scale) {
   // offsetting a star by much more than its tooth width produces quadratically many crossings in the raw offset (inherent):
   // the delta stays below the tooth width
   add(OP_INFLATE64, {big_star(2000, 1000000, 600000, 0, 0, 0.0)}, {}, {(int64_t)g.range(0, 3), (int64_t)g.range(0, 4)}, {g.coin() ? 500.0 : -500.0, 2.0, 0.0});
-  add(OP_INFLATE64, {cb}, {}, {(int64_t)JoinType::Round, (int64_t)EndType::Round}, {25.0, 2.0, 0.0});
+  // (8000 teeth take ~9 s under ASan against < 0.5 s for 2000: super-linear, noted in the report; the comb stays at 2000 teeth here)
+  add(OP_INFLATE64, {big_comb(2000, 40, 30000)}, {}, {(int64_t)JoinType::Round, (int64_t)EndType::Round}, {25.0, 2.0, 0.0});
   add(OP_RECTCLIP64, {s1, cb}, {}, {-500000, -20000, 700000, 20000}, {});
   add(OP_RECTCLIPLINES64, {s1, cb}, {}, {-500000, -20000, 700000, 20000}, {});
   add(OP_SIMPLIFY64, {s1, cb}, {}, {1}, {50.0});
@@ -1192,17 +1193,19 @@ int main(int argc, char** argv) {
   {
     std::vector<Case> cs;
     auto flush = [&](const char* what) { run_cases(cs); cs.clear(); tick(what); };
+    // cases are generated and executed in chunks: the parent stays small, so fork() stays cheap
+    auto push = [&](const Case& c) { cs.push_back(c); if (cs.size() >= 4000) { run_cases(cs); cs.clear(); } };
     // boolean clipping, |coord| <= 2^62
     if (want("Clipper64 paths")) {
-      for (int i = 0; i < 5000 * N; ++i) cs.push_back(gen_boolean(g, OP_C64_PATHS, g.pick(bw), false));
+      for (int i = 0; i < 5000 * N; ++i) push(gen_boolean(g, OP_C64_PATHS, g.pick(bw), false));
       flush("Clipper64 paths");
     }
     if (want("Clipper64 polytree")) {
-      for (int i = 0; i < 4000 * N; ++i) cs.push_back(gen_boolean(g, OP_C64_TREE, g.pick(bw), true));
+      for (int i = 0; i < 4000 * N; ++i) push(gen_boolean(g, OP_C64_TREE, g.pick(bw), true));
       flush("Clipper64 polytree");
     }
     if (want("ClipperD")) {
-      for (int i = 0; i < 1500 * N; ++i) { const World& w = g.pick(uw); Case c = gen_boolean(g, g.coin() ? OP_CD_PATHS : OP_CD_TREE, w, true); d_params(g, c, w); cs.push_back(c); }
+      for (int i = 0; i < 1500 * N; ++i) { const World& w = g.pick(uw); Case c = gen_boolean(g, g.coin() ? OP_CD_PATHS : OP_CD_TREE, w, true); d_params(g, c, w); push(c); }
       flush("ClipperD");
     }
     if (want("BooleanOp wrappers / reusable data")) {
@@ -1212,7 +1215,7 @@ int main(int argc, char** argv) {
         const World& w = is_d ? g.pick(uw) : g.pick(bw);
         Case c = gen_boolean(g, op, w, op == OP_BOOLOP64_TREE || op == OP_BOOLOPD_TREE || op == OP_C64_REUSE);
         if (is_d) d_params(g, c, w);
-        cs.push_back(c);
+        push(c);
       }
       flush("BooleanOp wrappers / reusable data");
     }
@@ -1221,7 +1224,7 @@ int main(int argc, char** argv) {
       for (int i = 0; i < 5000 * N; ++i) {
         int op = (int)g.range(OP_INFLATE64, OP_OFFSET_CALLBACK); const World& w = g.pick(uw);
         Case c = gen_offset(g, op, w); if (op == OP_INFLATED) { d_params(g, c, w); d_offset_params(c); }
-        cs.push_back(c);
+        push(c);
       }
       flush("offsetting");
     }
@@ -1229,7 +1232,7 @@ int main(int argc, char** argv) {
       for (int i = 0; i < 3000 * N; ++i) {
         int op = (int)g.range(OP_RECTCLIP64, OP_RECTCLIPLINESD); const World& w = g.pick(uw);
         Case c = gen_rect(g, op, w); if (op == OP_RECTCLIPD || op == OP_RECTCLIPLINESD) d_params_in_range(g, c, w);
-        cs.push_back(c);
+        push(c);
       }
       flush("rectangle clipping");
     }
@@ -1239,7 +1242,7 @@ int main(int argc, char** argv) {
         const World& wp = g.coin() ? uw[0] : g.pick(uw);
         Case c = gen_mink(g, op, w, wp);
         if (op == OP_MINKSUMD || op == OP_MINKDIFFD) d_params(g, c, std::max(std::llabs(wp.ox), std::llabs(wp.oy)) + world_extent(wp) > std::max(std::llabs(w.ox), std::llabs(w.oy)) + world_extent(w) ? wp : w);
-        cs.push_back(c);
+        push(c);
       }
       flush("Minkowski");
     }
@@ -1248,12 +1251,12 @@ int main(int argc, char** argv) {
         int op = (int)g.range(OP_TRIM64, OP_MEASURE); const World& w = g.pick(uw);
         Case c = gen_util(g, op, w); d_params(g, c, w);
         if (op == OP_SIMPLIFYD || op == OP_RDPD || op == OP_STRIP || op == OP_TRANSLATE || op == OP_MEASURE || op == OP_ELLIPSE) c.f[3] = g.pick(std::vector<double>{1.0, 0.5, 0.001});
-        cs.push_back(c);
+        push(c);
       }
       flush("path utilities");
     }
     if (want("export layer")) {
-      for (int i = 0; i < 4000 * N; ++i) cs.push_back(gen_export(g, (int)g.range(OP_X_BOOL64, OP_X_MISC), g.pick(bw), g.pick(uw)));
+      for (int i = 0; i < 4000 * N; ++i) push(gen_export(g, (int)g.range(OP_X_BOOL64, OP_X_MISC), g.pick(bw), g.pick(uw)));
       flush("export layer");
     }
     if (want("large inputs")) {
